@@ -742,4 +742,4 @@ def run(chk: common.Check) -> None:
                 kind, ops, lines, k, m, i, msgs = min(disagreements, key=lambda d: len(d[2]))
                 d = {'kind': kind, 'ops': ops, 'protocol_lines': lines, 'first_difference_at_line': k, 'model': m,
                      'implementation': i}
-            chk.violation('C08: ' + broken[0], {'no_longer_checks': broken, 'shortest_disagreement': d}, no_input=True)
+            chk.violation('C08: ' + ' | '.join(broken[:3]), {'no_longer_checks': broken, 'shortest_disagreement': d}, no_input=True)
